@@ -4,7 +4,7 @@ import RV.Model.Particles
   Python container index rules) on op lines produced by rv/c14.py.
 
   Stateful line protocol (one answer line per input line):
-    variant a b c d              F4 flags of the source under test (rangeFirst treeFirst lastClamp unsortedClamp)
+    variant a b c d e            flags of the source under test (rangeFirst treeFirst lastClamp unsortedClamp resetTree)
     new tree box forced          fresh simulation (0/1 flags)
     add id hash geo              geo: 0 in box, 1 outside boundary, 2 outside tree box
     rm index ks
@@ -29,7 +29,7 @@ namespace RV.Driver.C14
 
 def insertE (e : Entry) : List Entry → List Entry
   | [] => [e]
-  | x :: r => if e.hash < x.hash then e :: x :: r else x :: insertE e r
+  | x :: r => if e.hash ≤ x.hash then e :: x :: r else x :: insertE e r
 
 /-- stable insertion sort by hash (the model's own choice where qsort is free) -/
 def isort (l : List Entry) : List Entry := l.foldr insertE []
@@ -57,7 +57,7 @@ def parseEntries (s : String) : Option (List Entry) :=
 
 def outStr : Out → String
   | .ok => "ok" | .errOutsideBoundary => "errOutsideBoundary" | .errNoBox => "errNoBox"
-  | .errOutsideTreeBox => "errOutsideTreeBox" | .removed => "removed" | .lastRemoved => "lastRemoved"
+  | .errOutsideTreeBox => "errOutsideTreeBox" | .errSameCoords => "errSameCoords" | .removed => "removed" | .lastRemoved => "lastRemoved"
   | .errRange => "errRange" | .errMegno => "errMegno" | .errTreeSorted => "errTreeSorted"
   | .errNotFound => "errNotFound" | .found i => s!"found:{i}" | .notFound => "notFound"
   | .done => "done" | .errIndex => "errIndex" | .fault => "FAULT"
@@ -112,8 +112,8 @@ def answer (d : DS) (c' : State) (o : Out) (hint : String) : DS × String :=
 
 def stepLine (d : DS) (toks : List String) : DS × String :=
   match toks with
-  | ["variant", a, b, c, e] =>
-    ({ d with v := ⟨bit a, bit b, bit c, bit e⟩ }, "variant-set")
+  | ["variant", a, b, c, e, f] =>
+    ({ d with v := ⟨bit a, bit b, bit c, bit e, bit f⟩ }, "variant-set")
   | ["new", t, b, f] =>
     let c := State.init (bit t) (bit b) (bit f)
     answer d c .done "none"
@@ -149,7 +149,7 @@ def stepLine (d : DS) (toks : List String) : DS × String :=
     match k.toNat? with
     | some k => answer d { d.c with nVar := k } .done "none"
     | none => (d, "bad-op")
-  | ["rmall"] => let (c', o) := removeAll d.c; answer d c' o "none"
+  | ["rmall"] => let (c', o) := removeAll d.v d.c; answer d c' o "none"
   | ["hash", hx] =>
     match (if hx = "-" then some [] else hexBytes hx.toList) with
     | some bs => (d, s!"{(rebHash bs).toNat}")
